@@ -22,6 +22,15 @@ def sector_min(mH, qd, L, qrel):
 def run_dmrg(ctx, H, psi, two, nsweeps, numiter, tol_split, detail, label):
     """Runs one DMRG call under the trace monitor; returns (energies, local trace) after checking consistency."""
     local = []
+    splits = []
+
+    def around_ret(orig, sv, tol):
+        idx = orig(sv, tol)
+        try:
+            splits.append((len(sv), len(idx)))
+        except Exception:
+            splits.append((None, None))
+        return idx
 
     def around(orig, Lb, Rb, W, Astart, numiter_):
         out = orig(Lb, Rb, W, Astart, numiter_)
@@ -32,7 +41,7 @@ def run_dmrg(ctx, H, psi, two, nsweeps, numiter, tol_split, detail, label):
         return out
     dH = monitor.digest(H)
     fn = ptn.calculate_ground_state_local_twosite if two else ptn.calculate_ground_state_local_singlesite
-    with monitor.attached('pytenet.minimization._minimize_local_energy', around), monitor.write_protected(H):
+    with monitor.attached('pytenet.minimization._minimize_local_energy', around), monitor.attached('pytenet.bond_ops.retained_bond_indices', around_ret), monitor.write_protected(H):
         if numiter == 25 and not tol_split and nsweeps % 2:
             en = fn(H, psi, nsweeps)                  # documented defaults: numiter_lanczos = 25, tol_split = 0
         elif two:
@@ -40,6 +49,9 @@ def run_dmrg(ctx, H, psi, two, nsweeps, numiter, tol_split, detail, label):
         else:
             en = fn(H, psi, nsweeps, numiter_lanczos=numiter)
     ctx.ok('hamiltonian-untouched', monitor.digest(H) == dH, 'DMRG modified the Hamiltonian', detail)
+    # did the LAST singular-value truncation of the run keep everything? (then the returned state is exactly the last optimised one)
+    run_dmrg.last_split_complete = bool(splits) and splits[-1][0] is not None and splits[-1][0] == splits[-1][1]
+    run_dmrg.splits = len(splits)
     return np.asarray(en), local
 
 
@@ -101,8 +113,14 @@ def dmrg_case(ctx, idx, rng):
     E = float(np.real(np.vdot(v, mH @ v)))
     if tol_split == 0:
         ctx.close('energy==last-reported', abs(E - en[-1]), TOL * nH, f'<psi|H|psi> = {E} but last reported energy {en[-1]}', detail)
+    elif run_dmrg.last_split_complete:
+        # positive split tolerance, but the last truncation of the run (observed through a monitor on retained_bond_indices) kept every singular value:
+        # the returned state is the last optimised one, so its energy is the last reported energy
+        ctx.close('energy==last-reported[last-split-kept-everything]', abs(E - en[-1]), TOL * nH,
+                  f'<psi|H|psi> = {E} but last reported energy {en[-1]} (tol_split = {tol_split}, nothing discarded by the last split)', detail)
+        ctx.event('tol_split>0_with_complete_last_split')
     else:
-        # truncation after the last local optimisation may raise the energy slightly; consistency is claimed for zero split tolerance
+        # a truncation after the last local optimisation changes the state (raises the energy slightly): nothing to compare
         ctx.skip('energy==last-reported')
     ctx.ok('total-charge-kept', np.array_equal(psi.qD[0], ends[0]) and np.array_equal(psi.qD[-1], ends[1]), 'boundary charges changed', detail)
     ctx.ok('bond-dims-do-not-grow', all(a <= b for a, b in zip(psi.bond_dims, D_in)) if not two else True, f'{D_in} -> {psi.bond_dims}', detail)
